@@ -1,8 +1,216 @@
-import GIV.Model.Fsx
+/-
+  Property C15 — txtar extraction stays inside its directory and round-trips with txtar-c.
+
+  Model: GIV/Model/Fsx.lean (cleanPath, abstract file system, writeArchive, saveDir, extract).
+  The facts regenerated from /repo (GIV/Gen/Fsx.lean) are turned into the hypotheses of the lemma files
+  *here* (`rejects_*`, `open_flags`, `savedir_facts`), so a changed rejection test, a dropped O_EXCL, a
+  changed dot rule … breaks a named theorem of this file.
+-/
+import GIV.Lemmas.FsxFS
+
 namespace GIV.C15
 open GIV GIV.Txtar GIV.Fsx
 
-/-- placeholder while the lemma files are being written -/
-theorem cleanPath_empty : cleanPath [] = dotB := by rfl
+/-! ### regenerated facts -/
+
+/-- Write's test rejects every cleaned name that starts with '/'. -/
+theorem rejects_rooted (rest : Bytes) : Gen.Fsx.writeRejects (SEP :: rest) = true := by
+  simp [Gen.Fsx.writeRejects, Gen.Fsx.isAbs, SEP]
+
+/-- Write's test rejects ".". -/
+theorem rejects_dot : Gen.Fsx.writeRejects dotB = true := by decide
+
+/-- Write's test rejects "..". -/
+theorem rejects_dotdot : Gen.Fsx.writeRejects dotdotB = true := by decide
+
+/-- Write's test rejects everything that starts with "../". -/
+theorem rejects_dotdotSlash (rest : Bytes) : Gen.Fsx.writeRejects (dotdotSlash ++ rest) = true := by
+  simp [Gen.Fsx.writeRejects, Gen.Fsx.isAbs, dotdotSlash, DOT, SEP]
+
+/-- `isAbs` is "starts with '/'" (Unix). -/
+theorem isAbs_iff (p : Bytes) : Gen.Fsx.isAbs p = true ↔ p.head? = some SEP := by
+  cases p with
+  | nil => simp [Gen.Fsx.isAbs]
+  | cons b rest =>
+    by_cases hb : (47 : UInt8) = b
+    · subst hb; simp [Gen.Fsx.isAbs, SEP]
+    · have hb' : ¬ b = SEP := fun e => hb e.symm
+      simp [Gen.Fsx.isAbs, hb, hb']
+
+/-- Write's test rejects nothing else. -/
+theorem rejects_only (c : Bytes) (h1 : c.head? ≠ some SEP) (h2 : c ≠ dotB) (h3 : c ≠ dotdotB)
+    (h4 : ¬ dotdotSlash <+: c) : Gen.Fsx.writeRejects c = false := by
+  have a1 : ([47] : Bytes).isPrefixOf c = false := by
+    rw [← Bool.not_eq_true, List.isPrefixOf_iff_prefix]
+    rintro ⟨t, ht⟩
+    apply h1
+    rw [← ht]; rfl
+  have a2 : (c == ([46] : Bytes)) = false := by
+    rw [beq_eq_false_iff_ne]; exact h2
+  have a3 : (c == ([46, 46] : Bytes)) = false := by
+    rw [beq_eq_false_iff_ne]; exact h3
+  have a4 : ([46, 46, 47] : Bytes).isPrefixOf c = false := by
+    rw [← Bool.not_eq_true, List.isPrefixOf_iff_prefix]; exact h4
+  simp [Gen.Fsx.writeRejects, Gen.Fsx.isAbs, a1, a2, a3, a4]
+
+instance rejFacts : FRej where
+  sound := by
+    intro c h
+    refine ⟨?_, ?_, ?_, ?_⟩
+    · intro hh
+      cases c with
+      | nil => simp at hh
+      | cons b rest =>
+        simp only [List.head?_cons, Option.some.injEq] at hh
+        subst hh
+        rw [rejects_rooted] at h; cases h
+    · intro e; subst e; rw [rejects_dot] at h; cases h
+    · intro e; subst e; rw [rejects_dotdot] at h; cases h
+    · rintro ⟨t, rfl⟩; rw [rejects_dotdotSlash] at h; cases h
+  complete := by
+    intro c h
+    rcases h with h | h | h
+    · cases c with
+      | nil => simp at h
+      | cons b rest =>
+        simp only [List.head?_cons, Option.some.injEq] at h
+        subst h
+        exact rejects_rooted rest
+    · subst h; exact rejects_dotdot
+    · obtain ⟨t, rfl⟩ := h; exact rejects_dotdotSlash t
+  abs := isAbs_iff
+  accepts := rejects_only
+
+/-- OpenFile gets O_CREATE|O_EXCL, and MkdirAll(filepath.Dir(fp)) precedes it; the name is cleaned
+before the test and joined with `dir` after it. -/
+theorem open_flags : Gen.Fsx.openCreate = true ∧ Gen.Fsx.openExcl = true ∧ Gen.Fsx.mkdirAllBeforeOpen = true ∧
+    Gen.Fsx.writeCleansName = true ∧ Gen.Fsx.writeJoinsAfterTest = true := by decide
+
+instance openFacts : FOpen := ⟨open_flags.1, open_flags.2.1, open_flags.2.2.1⟩
+
+/-! ### Clean -/
+
+/-- **clean_normal.** For a path that is not absolute, `c = Clean(p)` is "..", or starts with "../",
+or has no ".." element at all; it is never empty, has no empty element (no leading, doubled or
+trailing '/'), and has no "." element unless it is "." itself. -/
+theorem clean_normal (p : Bytes) (h : Gen.Fsx.isAbs p = false) :
+    (cleanPath p = dotdotB ∨ dotdotSlash <+: cleanPath p ∨ dotdotB ∉ splitSep (cleanPath p)) ∧
+    cleanPath p ≠ [] ∧ [] ∉ splitSep (cleanPath p) ∧
+    (cleanPath p = dotB ∨ dotB ∉ splitSep (cleanPath p)) := by
+  have hrel : p.head? ≠ some SEP := by
+    intro hh; rw [(isAbs_iff p).mpr hh] at h; cases h
+  obtain ⟨k, ns, hns, hsh⟩ := clean_rel_shape p hrel
+  rcases hsh with ⟨_, _, hdot⟩ | ⟨hne, hj, hs⟩
+  · rw [hdot]
+    exact ⟨Or.inr (Or.inr (by decide)), by decide, by decide, Or.inl rfl⟩
+  · have hmem : ∀ c ∈ List.replicate k dotdotB ++ ns, c = dotdotB ∨ Normal c := by
+      intro c hc
+      simp only [List.mem_append, List.mem_replicate] at hc
+      rcases hc with ⟨_, rfl⟩ | hc
+      · exact Or.inl rfl
+      · exact Or.inr (hns c hc)
+    refine ⟨?_, ?_, ?_, ?_⟩
+    · cases k with
+      | zero =>
+        right; right
+        rw [hs]
+        simp only [List.replicate_zero, List.nil_append]
+        intro hc
+        exact (hns _ hc).2.2.1 rfl
+      | succ k =>
+        rw [List.replicate_succ, List.cons_append] at hj
+        cases hrest : List.replicate k dotdotB ++ ns with
+        | nil => rw [hrest] at hj; exact Or.inl hj
+        | cons d ds =>
+          rw [hrest, joinSep_cons_cons] at hj
+          right; left
+          rw [hj]
+          exact ⟨joinSep (d :: ds), rfl⟩
+    · intro he
+      rw [he] at hs
+      have : splitSep [] = [[]] := rfl
+      rw [this] at hs
+      have := hmem [] (by rw [← hs]; simp)
+      rcases this with h | h
+      · cases h
+      · exact h.1 rfl
+    · rw [hs]
+      intro hc
+      rcases hmem [] hc with h | h
+      · cases h
+      · exact h.1 rfl
+    · right
+      rw [hs]
+      intro hc
+      rcases hmem dotB hc with h | h
+      · cases h
+      · exact h.2.1 rfl
+
+example : cleanPath [97, 47, 46, 46, 47, 46, 46, 47, 98] = [46, 46, 47, 98] := by decide   -- "a/../../b" ↦ "../b"
+example : cleanPath [97, 47, 46, 46] = dotB ∧ cleanPath [97, 47, 47, 98, 47] = [97, 47, 98] := by decide
+example : Gen.Fsx.isAbs [97, 47, 46, 46, 47, 46, 46] = false ∧ cleanPath [97, 47, 46, 46, 47, 46, 46] = dotdotB := by decide
+
+/-! ### Write -/
+
+/-- **write_contained.** Whatever `Write` adds to the file system — in runs that succeed and in runs
+that end in an error alike — lies strictly beneath `dir`, except that `dir` itself and its ancestors may
+be created *as directories* (by MkdirAll, when they did not exist). No hypothesis on the file system:
+`dir` need not exist. -/
+theorem write_contained (a : Archive) (dir : Path) (fs : FS) (q : Path) (n : Node)
+    (hnew : fs.get q = none) (hafter : (writeArchive a dir fs).2.get q = some n) :
+    (dir <+: q ∧ q ≠ dir) ∨ (n = .dir ∧ q <+: dir) :=
+  (writeFiles_inside dir fs a.files).2 q n hnew hafter
+
+/-- every regular file that `Write` creates is strictly beneath `dir`. -/
+theorem write_contained_files (a : Archive) (dir : Path) (fs : FS) (q : Path) (d : Bytes)
+    (hnew : fs.get q = none) (hafter : (writeArchive a dir fs).2.get q = some (.file d)) :
+    dir <+: q ∧ q ≠ dir := by
+  rcases write_contained a dir fs q _ hnew hafter with h | ⟨h, _⟩
+  · exact h
+  · cases h
+
+-- an archive whose second entry is rejected: the first file stays, nothing else appears
+example :
+    writeArchive ⟨[], [⟨[97], [120]⟩, ⟨[46, 46, 47, 97], [121]⟩]⟩ [[112], [100]] [([[112]], .dir)] =
+      (some .outside, [([[112], [100], [97]], .file [120]), ([[112], [100], [97]], .file []),
+        ([[112], [100]], .dir), ([[112]], .dir)]) := by decide
+
+/-- **write_rejects_escape** (the offending entry). An entry whose name is absolute, or whose clean form
+is ".." or starts with "../", makes `Write` return its "outside parent directory" error at that entry
+and the entry creates nothing. -/
+theorem write_rejects_entry (dir : Path) (fs : FS) (f : File) (h : Escapes f.name) :
+    writeOne dir fs f = (some .outside, fs) :=
+  writeOne_rejected (escapes_rejected h)
+
+/-- **write_rejects_escape.** If any entry of the archive has such a name, `Write` reports an error
+(that entry's, or an earlier one). -/
+theorem write_rejects_escape (a : Archive) (dir : Path) (fs : FS)
+    (h : ∃ f ∈ a.files, Escapes f.name) : (writeArchive a dir fs).1 ≠ none :=
+  writeFiles_escape_error dir fs a.files h
+
+example : Escapes [46, 46] ∧ Escapes [97, 47, 46, 46, 47, 46, 46] ∧ Escapes [47, 97] ∧ Escapes [46, 46, 47] ∧
+    ¬ Escapes [46, 46, 97] ∧ ¬ Escapes [97, 47, 46, 46] := by
+  unfold Escapes; decide
+-- dir and its parent missing: the pre-fix escape ("c/../.." into /a/b/c created the file /a/b) is now an error
+example : writeArchive ⟨[], [⟨[99, 47, 46, 46, 47, 46, 46], [104]⟩]⟩ [[97], [98], [99]] [] = (some .outside, []) := by
+  decide
+
+/-- **write_no_overwrite.** Everything that existed before `Write` — files with their content, and
+directories — is still there unchanged afterwards, whether or not `Write` succeeded. -/
+theorem write_no_overwrite (a : Archive) (dir : Path) (fs : FS) (q : Path) (n : Node)
+    (h : fs.get q = some n) : (writeArchive a dir fs).2.get q = some n :=
+  (writeFiles_inside dir fs a.files).1 q n h
+
+example : (writeArchive ⟨[], [⟨[97], [120]⟩]⟩ [[100]] [([[100]], .dir), ([[100], [97]], .file [111])]) =
+    (some .exists, [([[100]], .dir), ([[100], [97]], .file [111])]) := by decide
+
+/-- **write_contents.** When `Write` returns nil, every entry's file — at `Join(dir, Clean(name))` —
+holds exactly the entry's data. -/
+theorem write_contents (a : Archive) (dir : Path) (fs : FS) (hok : (writeArchive a dir fs).1 = none) :
+    ∀ f ∈ a.files, (writeArchive a dir fs).2.get (joinPath dir (cleanPath f.name)) = some (.file f.data) :=
+  writeFiles_contents dir fs a.files hok
+
+example : (writeArchive ⟨[], [⟨[97, 47, 46, 46, 47, 98], [120]⟩, ⟨[99, 47, 47, 100], [121]⟩]⟩ [[100]] []).1 = none ∧
+    joinPath [[100]] (cleanPath [99, 47, 47, 100]) = [[100], [99], [100]] := by decide
 
 end GIV.C15
